@@ -67,6 +67,10 @@ pub fn write_module(
     let mut definitions = module
         .definitions(semantic_state.type_registry())
         .collect::<Vec<_>>();
+    #[cfg(pyxis_verif)]
+    crate::verif::reorder_in_place(crate::verif::Site::Definitions, &mut definitions, |d| {
+        d.path.to_string()
+    });
     definitions.sort_by_key(|d| &d.path);
     for definition in definitions {
         writeln!(
